@@ -81,7 +81,12 @@ fn run_check(args: vcore::Args) -> ! {
             plans.extend(p);
         }
     }
-    // longest first is not needed; interleave drivers/families for an even load
+    // development aid: C20_STRIDE=k runs every k-th plan only (never exhaustive, recorded as a cap)
+    if let Some(k) = std::env::var("C20_STRIDE").ok().and_then(|s| s.parse::<usize>().ok()) {
+        let off = std::env::var("C20_OFFSET").ok().and_then(|s| s.parse::<usize>().ok()).unwrap_or(0);
+        plans = plans.into_iter().enumerate().filter(|(i, _)| i % k == off % k).map(|(_, p)| p).collect();
+        rep.cap_hit(&format!("C20_STRIDE={k}: only every {k}-th plan executed"));
+    }
     rep.extra(
         "bounds",
         json!({
@@ -266,6 +271,7 @@ fn main() {
         return;
     }
     let args = vcore::parse_args();
+    vcore::quiet_panics();
     if args.property != "C20" {
         vcore::machinery_error(&format!("e_c20 does not serve property {}", args.property));
     }
